@@ -174,6 +174,24 @@ CHECKS = {
             'CSV+CSVW table round trip are decided by the oracle on the real pandas path.',
             'Trusted: Lean kernel; translator (ast walk); pandas read_csv/to_datetime not modelled (oracle only).',
             'DESIGN.md 4 C16'),
+    'C17': ('Lean 4 theorems over a model of the command-line scanner and flag translation + model/implementation correspondence (partial: the agreement with the library on files is runtime, decided by the oracle)',
+            'Kernel-checked theorems over a scanner that is parametric in the option and positional tables regenerated from '
+            'flags.py and pd/{discover,verify,detect}.py on every run: for every command line written the documented way (any '
+            'number of options in any order, short or long spelling, values, lists, files before or after the options) the '
+            'scanner returns exactly the options and files written; a command line with an unknown option, no input, too many '
+            'files or contradictory options (rex/norex, all/fields, per-constraint/no-per-constraint, output-fields/'
+            'no-output-fields) never runs the command; an accepted discover / verify / detect invocation passes exactly the '
+            'documented keywords (each present iff its option was given); the generated tables are well formed and contain '
+            'every destination the translation reads, including the documented spelling --no-original-fields. The model is '
+            'tied to pd_*_params on every generated command line. PARTIAL: that the command line then produces the same '
+            'constraints, counts, report text and detection output as the library on the loaded DataFrame, that constraints '
+            'discovered from a file verify against it, and that failing invocations leave no output file is decided by the '
+            'oracle: every generated CSV / parquet file is discovered (to a file, to -, to nothing, from standard input), '
+            'verified and detected through console.main_with_argv under random documented flag sets and compared with direct '
+            'library calls; corpus cases also as real processes.',
+            'Trusted: Lean kernel; argparse beyond the documented way of writing options; pandas, file system, process exit. '
+            'No open findings; two fixed.',
+            'DESIGN.md 4 C17'),
     'C18': ('Lean 4 theorems over a model of the coverage functions + model/implementation correspondence',
             'Kernel-checked theorems over a line-by-line model of rex_coverage / coverage_matrices / '
             'matrices2incremental_coverage for every pattern list, example multiset and match relation: termination, '
